@@ -916,7 +916,8 @@ impl W3Exec {
             // per-step traded volume from the trade log
             let from = pre[a].book.trades.len().min(b.trades.len());
             let by_index: u64 = b.trades[from..].iter().map(|t| t.vol as u64).sum();
-            if (n as u64) <= self.cfg.step_size {
+            // (time-stamp windows of different steps are disjoint only while no step was oversized)
+            if (n as u64) <= self.cfg.step_size && !self.stats.faults.contains_key("step_overflow_batch_gt_step_size") {
                 let by_time: u64 = b.trades.iter().filter(|t| t.t >= start && t.t < start + self.cfg.step_size).map(|t| t.vol as u64).sum();
                 if by_time != by_index {
                     return Err(self
